@@ -63,6 +63,8 @@ type VC struct {
 	curFrame   *Frame
 	curInstr   ssa.Instruction
 	curState   *State
+	sharedCells map[string]Val
+	encapsViol  map[string]bool
 }
 
 func newVC(eng *Engine, fn *ssa.Function, con *Contract) *VC {
